@@ -14,14 +14,14 @@ to a **group** (`classTable`, `globalTable`); the groups are the cells of the da
 | cmn | `cmn` | the channel-normalisation state (mean, sum, frame count, its text) — the one deliberate carry |
 | reset | `cnt` `fec` `res` `beam` `hist` `hmm` | re-initialised by `decoder_start_utt` (`cnt`,`fec`,`res`: constants; `beam`,`hist`: from the grammar; `hmm`: cleared by `fsg_search_finish`/lextree construction, roots entered at start) |
 | dead | `scr` `sen` `noi` `mfc` `cep` `feat` | dead on start: old content is never read before being rewritten — `startUtt` **kills** them in the model |
-| tainted | `lay` `sel` `log` | carried and read, but declared result-neutral: ring capacities / ring phase (C07's subject), the Gaussian-selection history (top-N codeword identities, re-scored and re-selected by a full scan), statistics only read for logging.  They occur in read sets but in no dependency set of a non-tainted cell; that declaration is validated by poisoning / perturbation on the implementation, not proved. |
+| tainted | `lay` `sel` `log` | carried and read, but declared result-neutral: ring capacities / ring phase (C07's subject), the top-N history of the `s2_semi` scorer (no shipped model uses it; the PTM scorer's history is reset when frame 0 is scored — D54 — and is therefore dead-on-start scratch, group `sen`), statistics only read for logging.  They occur in read sets but in no dependency set of a non-tainted cell; that declaration is validated by poisoning / perturbation on the implementation, not proved. |
 | derived | `agg` | embedded aggregates (`fsg_search_s.base`, `fsg_pnode_s.hmm`, `*_mgau_s.base`) whose components are classified on their own |
 | global | `gconst` `ginit` `gexcl` | never written after load / written and consumed only inside `fe_init` / excluded by configuration (error callback + log level, dither PRNG) |
 
 *Operations* mirror the public calls, split by what they do to the buffers (decided by the harness
 from the sample counts): see `Op`.  *Phases* mirror `acmod->state` (`Phase.code`).  The model is of the
 **repaired** code: a call that completes no analysis window leaves the phase `started` (D8), and
-`feat_s.cmn` is persistent (D28).
+`feat_s.cmn` is persistent (D52), and live CMN tests its update threshold per frame, so the ring capacity does not reach the data (D53); the PTM top-N history is reset at frame 0 (D54).
 -/
 namespace SSVerif.Api
 open SSVerif.Generated SSVerif.Isolation
@@ -210,7 +210,7 @@ def classTable_ptm_mgau_s : List (Field × Group) := [
   (.ptm_mgau_s__lmath_8b, .cfg),
   (.ptm_mgau_s__lmath, .cfg)]
 def classTable_ptm_fast_eval_s : List (Field × Group) := [
-  (.ptm_fast_eval_s__topn, .sel),
+  (.ptm_fast_eval_s__topn, .sen),
   (.ptm_fast_eval_s__mgau_active, .sen)]
 def classTable_s2_semi_mgau_s : List (Field × Group) := [
   (.s2_semi_mgau_s__base, .agg),
